@@ -3,7 +3,7 @@ use super::common::*;
 use crate::engine::explore::{assume_ne, Verdict};
 use crate::engine::sf::SF;
 use crate::schemes::*;
-use ark_ff::Zero;
+use ark_ff::{Field, Zero};
 use ark_poly_commit::{LabeledCommitment, PolynomialCommitment};
 
 /// commit/open accept exactly when the (value-dependent) degree is within the declared bound,
@@ -78,6 +78,24 @@ where
         let t = terms_of(w.comms[idx[k]].commitment());
         if !assume_ne(t[0], SF::zero(), "commitment is the identity") {
             return Verdict::Hold;
+        }
+    }
+    // IPA shifts by powers of the evaluation point, not of a trapdoor: a label d' instead of d is indistinguishable
+    // at points with z^|d' - d| = 1 (probability |d' - d| / |F| for the random point the scheme assumes)
+    if S::NAME == "ipa" {
+        let pair = match attack {
+            Attack::Relabel(o) => Some((0usize, o)),
+            Attack::RelabelAt(i, o) => Some((i, o)),
+            _ => None,
+        };
+        if let Some((i, other)) = pair {
+            if let Some(d) = w.comms[i].degree_bound() {
+                let k = if other > d { other - d } else { d - other } as u64;
+                let zc = S::point_coords(&pt);
+                if !assume_ne(zc[0].pow([k]), SF::from(1u64), "z^|d' - d| == 1") {
+                    return Verdict::Hold;
+                }
+            }
         }
     }
     match attack {
